@@ -4,7 +4,7 @@ import ast
 from . import rule, info
 from ..program import AnalysisError, src, norm, ClassInfo
 from ..pattern import match, matches
-from ..util import (branch_of, polarity, cond_expr, is_name, calls_in, callee_qual, deref, ancestors, handler_outcomes, handler_body_nodes,
+from ..util import (exclusive, branch_of, polarity, cond_expr, is_name, calls_in, callee_qual, deref, ancestors, handler_outcomes, handler_body_nodes,
                     enclosing_trys, handler_covers, completes_normally, evaluator_calls, fmt_witness)
 
 info('C05',
@@ -142,7 +142,7 @@ def evaluator_bookkeeping(ctx):
 def _frame_vars(unit):
     """locals of the trace reader that hold a frame map: the scope parameter, rebound to <x>.maps[0], and
     values read from LAST_CHILD_SCOPE"""
-    out = {'scope'}
+    out = {'scope'} | set(unit.params[:1])
     changed = True
     while changed:
         changed = False
@@ -164,9 +164,10 @@ def key_agreement(ctx):
     readers = [ctx.unit('core._unpack_stack'), ctx.unit('core.format_target_spec_trace')]
     need = {}
     for r in readers:
+        fv = _frame_vars(r) | {'child'}
         for n in r.own_nodes():
             if isinstance(n, ast.Subscript) and isinstance(n.ctx, ast.Load) and is_name(n.value) \
-                    and n.value.id in ('scope', 'child'):
+                    and n.value.id in fv:
                 k = p.scope_key(r, n.slice)
                 if k is None or not k.startswith('core.'):
                     continue
@@ -248,11 +249,16 @@ def recycler(ctx):
     early = [r for r in rets if is_name(r.value, scope)]
     ok = len(early) == 1
     if ok:
-        g = [a for a in ancestors(early[0]) if isinstance(a, ast.If)]
-        t = g[0].test if g else None
-        ok = isinstance(t, ast.Compare) and isinstance(t.ops[0], ast.NotIn) and key_is(p, u, t.left, 'core.LAST_CHILD_SCOPE') \
-            and isinstance(t.comparators[0], ast.Subscript) and isinstance(t.comparators[0].value, ast.Attribute) \
-            and t.comparators[0].value.attr == 'maps' and t.comparators[0].slice.value == 0
+        ok = False
+        en = cfg.node_of(early[0])
+        for t in cfg.nodes:
+            if t.kind != 'test':
+                continue
+            for tmpl, edge in (('$k not in %s.maps[0]' % scope, 'true'), ('$k in %s.maps[0]' % scope, 'false')):
+                b = match(t.ast, tmpl)
+                kx = t.ast.left if isinstance(t.ast, ast.Compare) else None
+                if b is not None and kx is not None and key_is(p, u, kx, 'core.LAST_CHILD_SCOPE') and en in exclusive(cfg, t, edge):
+                    ok = True
     ctx.ob(ok, u, 'a frame without children of its own is used as it is (own map tested, not inherited): %s'
            % [norm(e) for e in early])
     ctx.floor(4)
@@ -390,10 +396,27 @@ def record_layout(ctx):
         # formatter closures by role: X = <maker>('Target') / ('Spec'); the recursion lambda calls this function
         labels = {}
         rec_names = set()
+        single = {}
         for n in r.own_nodes():
-            if isinstance(n, ast.Assign) and is_name(n.targets[0]) and isinstance(n.value, ast.Call) and n.value.args \
-                    and isinstance(n.value.args[0], ast.Constant) and n.value.args[0].value in ('Target', 'Spec'):
-                labels.setdefault(n.value.args[0].value, set()).add(n.targets[0].id)
+            if isinstance(n, ast.Assign) and len(n.targets) == 1 and is_name(n.targets[0]):
+                single.setdefault(n.targets[0].id, []).append(n.value)
+
+        def label_consts(e, depth=0):
+            out = [x.value for x in ast.walk(e) if isinstance(x, ast.Constant) and isinstance(x.value, str)]
+            if depth < 2:
+                for x in ast.walk(e):
+                    if isinstance(x, ast.Name) and len(single.get(x.id, ())) == 1 and not isinstance(single[x.id][0], (ast.Lambda, ast.Call)):
+                        out += label_consts(single[x.id][0], depth + 1)
+            return out
+        for n in r.own_nodes():
+            # a line formatter: built by a maker call or written as a lambda; its label is the
+            # 'Target' / 'Spec' text it is built with
+            if isinstance(n, ast.Assign) and is_name(n.targets[0]) and isinstance(n.value, (ast.Call, ast.Lambda)) \
+                    and not (isinstance(n.value, ast.Lambda) and isinstance(n.value.body, ast.Call)
+                             and callee_qual(p, r, n.value.body) == 'core.format_target_spec_trace'):
+                for lab in ('Target', 'Spec'):
+                    if any(lab in c_ for c_ in label_consts(n.value)):
+                        labels.setdefault(lab, set()).add(n.targets[0].id)
             if isinstance(n, ast.Assign) and is_name(n.targets[0]) and isinstance(n.value, ast.Lambda) and \
                     isinstance(n.value.body, ast.Call) and callee_qual(p, r, n.value.body) == 'core.format_target_spec_trace':
                 rec_names.add(n.targets[0].id)
@@ -561,12 +584,36 @@ def message_memo_follows_finalisation(ctx):
         if isinstance(n, ast.Call) and is_name(n.func, 'getattr') and len(n.args) >= 2 and is_name(n.args[0], self_) \
                 and isinstance(n.args[1], ast.Constant) and n.args[1].value != memo:
             gates.append(n.args[1].value)
+    gates = [g for g in gates if not any(s_.targets[0].attr == g for s_ in stores)]
     ctx.require(gates, 'GlomError.__str__: finalised-state test not found')
     cls = ctx.cls('core.GlomError')
     n_writers = 0
+    # any further instance attribute __str__ tests before rendering is a memo of the same kind
+    scfg = ctx.cfg(su)
+    tested = set()
+    for t in scfg.nodes:
+        if t.kind != 'test':
+            continue
+        for n in ast.walk(t.ast):
+            if isinstance(n, ast.Call) and is_name(n.func, 'getattr') and len(n.args) >= 2 and is_name(n.args[0], self_) \
+                    and isinstance(n.args[1], ast.Constant):
+                tested.add(n.args[1].value)
+            elif isinstance(n, ast.Attribute) and is_name(n.value, self_):
+                tested.add(n.attr)
+    extra_memos = sorted(a for a in tested - set(gates) - {memo} if any(s_.targets[0].attr == a for s_ in stores))
     for name, u in sorted(cls.methods.items()):
         if u is su:
             continue
+        for a in extra_memos:
+            w = [n for n in u.own_nodes() if isinstance(n, ast.Assign) and any(
+                isinstance(t, ast.Attribute) and is_name(t.value, u.params[0] if u.params else None) and t.attr in gates for t in n.targets)]
+            if not w:
+                continue
+            r = [n for n in u.own_nodes() if isinstance(n, (ast.Assign, ast.Delete)) and any(
+                isinstance(t, ast.Attribute) and t.attr == a for t in n.targets)]
+            ctx.ob(bool(r), u, '%s.%s also drops the second memo __str__ consults (%s)' % (cls.name, name, a),
+                   '' if r else '__str__ reuses %s when it is set; %s sets a new scope and leaves it: the outer error renders the inner trace' % (a, name),
+                   node=w[0])
         writes = [n for n in u.own_nodes() if isinstance(n, ast.Assign) and any(
             isinstance(t, ast.Attribute) and is_name(t.value, u.params[0] if u.params else None) and t.attr in gates
             for t in n.targets)]
